@@ -131,6 +131,8 @@ def make_process(pid, gtf, outdir, clean_start=False, with_mapper_caches=False, 
             with open(bed, "r") as f:
                 res["bed_content"] = f.read()
             res["bed_path"] = bed
+            with open(db, "r") as f:
+                res["db_content_end"] = f.read()      # the database file may have been re-converted by another run in the meantime
         elif with_mapper_caches:
             import src.read_mapper as RM
             args.reference = V + "data/ref%d.fa" % pid
@@ -222,6 +224,16 @@ def scenario(name):
             base_init(v, cfg_exists=True)
             v.add(V + "data/bad1.gtf", "garbage", mtime=13.0)
         return [(1, V + "data/bad1.gtf", o(1), False, False), (2, g(2), o(2), False, False), (3, g(2), o(3), False, False)], init
+    if name == "bed-of-replaced-db":
+        # run 1 (out2) is handed the cached database of annot1.gtf (lying in out1) and exports the junction BED from it; meanwhile the
+        # annotation is replaced by a new release and run 2 re-converts it into out1 (same database path); run 3 starts on the new release
+        def init(v):
+            base_init(v, cfg_exists=True)
+            db = o(1) + "/annot1.db"
+            v.add(db, "db-from:%s@%s" % (g(1), 11.0), mtime=31.0)
+            v.files[CFG + "/db_config.json"].content = json.dumps({g(1): {"genedb": db, "gtf_mtime": 11.0, "db_mtime": 31.0, "complete_db": True}})
+        return [(1, g(1), o(2), False, "annotation"), ("editor", g(1), "gtf1-new-release"), (2, g(1), o(1), False, False),
+                (3, g(1), o(3), False, "annotation")], init
     if name == "same-gtf-different-completeness":
         # the same annotation converted with and without --complete_genedb: each run must use a conversion made with its own setting
         return [(1, g(1), o(1), False, False, False), (2, g(1), o(2), False, False, True)], lambda v: base_init(v)
@@ -290,7 +302,7 @@ def make_check(specs):
                     out.append(("foreign-or-partial-index", "process %d loads the index %s whose content is %r, expected the complete index of its "
                                 "reference" % (pid, r["index_path"], r["index_content"])))
             elif mapper == "annotation":
-                if r["bed_content"] != expected_bed(r["db_content"]):
+                if r["bed_content"] not in (expected_bed(r["db_content"]), expected_bed(r["db_content_end"])):
                     out.append(("foreign-or-partial-bed", "process %d hands %s to the aligner whose content is %r, expected the complete export of "
                                 "its database %r" % (pid, r["bed_path"], r["bed_content"], r["db_content"])))
             elif mapper:
@@ -353,6 +365,7 @@ def run(ctx):
     jobs.append(("gtf-rewritten-during-conversion", 2 if quick else 3, 60000 if quick else 400000))
     jobs.append(("three-processes", 1 if quick else 2, 60000 if quick else 400000))
     jobs.append(("failing-run-vs-valid", 1 if quick else 2, 60000 if quick else 400000))
+    jobs.append(("bed-of-replaced-db", 1 if quick else 2, 60000 if quick else 400000))
     if not quick:
         jobs.append(("three-fresh", 1, 400000))
     tot = {"executions": 0, "states": 0, "transitions": 0, "complete": 0}
